@@ -681,6 +681,12 @@ package ring
 
 //@ afunc ModExp
 //@   trusted opaque at the abstract level: some residue (coefficient-level contract: property C11)
+//@ afunc Ring.Automorphism
+//@   trusted ring-element view: polOut is the image of polIn under the automorphism X -> X^gen (coefficient-level contract: property C01), NAMED uf_autom
+//@   requires iscoef(polIn)
+//@   assigns polOut
+//@   ensures val(polOut) == uf_autom(old(val(polIn)), gen) && mexp(polOut) == old(mexp(polIn)) && dom(polOut) == 0
+
 //@ afunc Ring.AutomorphismNTT
 //@   trusted ring-element view: polOut is the image of polIn under the automorphism X -> X^gen (coefficient-level contract: property C01)
 //@   requires isntt(polIn)
